@@ -98,6 +98,20 @@ def generate(seed, idx, tier):
         # renames, the summary last; the window the statement speaks about
         # ends where the renames begin
         app['sort_pnames'] = True
+    if rng.random() < 0.3:
+        # the judged append is the *retry* of one that failed: same shape
+        # (row count, options, entry point), other rows - its complete part
+        # files lie orphaned under the names the retry is going to use
+        import copy
+        first = copy.deepcopy(app)
+        first['op'] = 'failed_append'
+        first['frame']['batch'] = batch + 1
+        for c in first['frame']['cols']:
+            if c[1] != 'uid':
+                c[3] = rng.randrange(2 ** 31)
+        first['at'] = rng.choice((0.6, 0.8, 0.95, 0.999))
+        first.pop('sort_pnames', None)
+        ops.append(first)
     quick = tier == 'quick'
     return {
         'prop': PROP, 'seed': seed, 'idx': idx, 'tier': tier,
